@@ -835,6 +835,9 @@ def resize_bytes(fobj, old_size: int, new_size: int, offset: int) -> None:
         IOError
     """
 
+    if old_size < 0 or new_size < 0 or offset < 0:
+        raise ValueError
+
     if new_size < old_size:
         delete_size = old_size - new_size
         delete_at = offset + new_size
